@@ -5,6 +5,7 @@ package main
 import (
 	"bytes"
 	"fmt"
+	"math"
 	"sort"
 	"strconv"
 	"strings"
@@ -187,6 +188,9 @@ func randSsaDoc(r *rng) *ssaDocGT {
 // ---- rendering ----------------------------------------------------------------------------------
 
 func ssaStamp(r *rng, ns int64) string {
+	if ssaCells != nil {
+		return ssaStampAny(r, ns)
+	}
 	cs := ns / 1e7
 	h, m, s, c := cs/360000, cs/6000%60, cs/100%60, cs%100
 	if r.chance(1, 3) {
@@ -196,6 +200,9 @@ func ssaStamp(r *rng, ns int64) string {
 }
 
 func ssaRenderVal(r *rng, v ssaVal) string {
+	if ssaCells != nil {
+		return ssaRenderValAny(r, v)
+	}
 	switch v.Kind {
 	case 'b':
 		if v.B {
@@ -268,7 +275,11 @@ func renderSsa(r *rng, d *ssaDocGT) (string, map[string]bool, map[string]bool) {
 		v := d.Info[k]
 		if k == "Timer" {
 			n, _ := strconv.ParseInt(v, 10, 64)
-			v = fmt.Sprintf("%d,%04d", n/1000, n%1000*10)
+			if ssaCells != nil {
+				v = ssaTimerAny(r, n)
+			} else {
+				v = fmt.Sprintf("%d,%04d", n/1000, n%1000*10)
+			}
 		}
 		L = append(L, k+": "+v)
 		junk()
@@ -360,6 +371,13 @@ func renderSsa(r *rng, d *ssaDocGT) (string, map[string]bool, map[string]bool) {
 	for _, e := range d.Events {
 		var vals []string
 		ip := func(p *int) string {
+			if ssaCells != nil {
+				n := 0
+				if p != nil {
+					n = *p
+				}
+				return ssaIntAny(r, n)
+			}
 			if p == nil {
 				return "0"
 			}
@@ -420,13 +438,351 @@ func attrKind(name string) byte {
 	return 's'
 }
 
+// ---- cell spellings (C04, audit items c, d, f) -------------------------------------------------------
+// Every spelling below denotes, by the characterisation of coq/Proofs/SsaCells.v and SsaCellsTime.v (int_spelling,
+// bool_spelling, colour_spelling, float_spelling, time_spelling), exactly the ground-truth value it is rendered from.
+// ssaCells is nil outside the C04 suites: the other properties' suites keep their renderings and random streams.
+var ssaCells map[string]int
+
+func ssaCellsOn() { ssaCells = map[string]int{} }
+func ssaCellsFlush(R *runner) {
+	keys := make([]string, 0, len(ssaCells))
+	for k := range ssaCells {
+		keys = append(keys, k)
+	}
+	sort.Strings(keys)
+	for _, k := range keys {
+		R.countN("ssa.cell."+k, ssaCells[k])
+	}
+	ssaCells = nil
+}
+func ssaTally(k string) { ssaCells[k]++ }
+
+// ssaVary moves a ground-truth document into the regions the cell spellings need: hours of two and three (four)
+// digits, numbers with one, two and three fraction digits (negative ones too), colours without alpha byte, negative
+// and larger integers.  Attributes are visited in the fixed order of ssaStyleAttrs (map order is not deterministic).
+func ssaVary(r *rng, d *ssaDocGT) {
+	var shift int64
+	switch r.intn(4) {
+	case 0:
+		shift = int64(10 + r.intn(90))
+	case 1:
+		shift = int64(100 + r.intn(1100))
+	}
+	for i := range d.Events {
+		d.Events[i].Start += shift * 3600e9
+		d.Events[i].End += shift * 3600e9
+		if r.chance(1, 6) { // whole seconds: the forms without fraction, with one fraction digit
+			d.Events[i].Start -= d.Events[i].Start % 1e9
+			d.Events[i].End += (1e9 - d.Events[i].End%1e9) % 1e9
+		}
+	}
+	for i := range d.Styles {
+		for _, a := range ssaStyleAttrs {
+			v, ok := d.Styles[i].Attrs[a.name]
+			if !ok {
+				continue
+			}
+			switch v.Kind {
+			case 'f':
+				if r.chance(1, 2) {
+					v.F = int64(r.intn(300000))
+					if r.chance(1, 5) {
+						v.F = int64(r.intn(1000)) // below one: the forms without integer digits
+					}
+					if r.chance(1, 6) {
+						v.F = -v.F
+					}
+				}
+			case 'c':
+				if r.chance(1, 3) {
+					v.C[0] = 0
+				}
+			case 'i':
+				if r.chance(1, 4) {
+					v.I = r.intn(2000) - 1000
+				}
+			}
+			d.Styles[i].Attrs[a.name] = v
+		}
+	}
+}
+
+func ssaZeros(n int) string { return strings.Repeat("0", n) }
+
+// H:MM:SS.cc in every spelling parseDuration(_, ".", 3) reads as ns (a multiple of 10 ms, not negative)
+func ssaStampAny(r *rng, ns int64) string {
+	cs := ns / 1e7
+	h, m, s, c := cs/360000, cs/6000%60, cs/100%60, cs%100
+	switch {
+	case h >= 100:
+		ssaTally("time.hours_ge_100")
+	case h >= 10:
+		ssaTally("time.hours_10_to_99")
+	default:
+		ssaTally("time.hours_lt_10")
+	}
+	var hs string
+	switch k := r.intn(8); {
+	case k == 0:
+		hs = fmt.Sprintf("%02d:", h)
+		ssaTally("time.hours_padded_to_2")
+	case k == 1:
+		hs = fmt.Sprintf("%03d:", h)
+		ssaTally("time.hours_padded_to_3")
+	case k == 2 && h == 0:
+		hs = ""
+		ssaTally("time.two_fields_MM_SS")
+	case k == 3 && h == 0:
+		hs = ":"
+		ssaTally("time.empty_hours_field")
+	default:
+		hs = fmt.Sprintf("%d:", h)
+		ssaTally("time.hours_unpadded")
+	}
+	ms := fmt.Sprintf("%02d:%02d", m, s)
+	if r.chance(1, 10) {
+		ms = fmt.Sprintf("%d:%d", m, s)
+		ssaTally("time.minutes_seconds_unpadded")
+	}
+	fr := fmt.Sprintf(".%02d", c)
+	switch k := r.intn(8); {
+	case k == 0 && c%10 == 0:
+		fr = fmt.Sprintf(".%d", c/10)
+		ssaTally("time.fraction_1_digit")
+	case k == 1:
+		fr = fmt.Sprintf(".%03d", c*10)
+		ssaTally("time.fraction_3_digits")
+	case k == 2 && c == 0:
+		fr = ""
+		ssaTally("time.no_fraction")
+	default:
+		ssaTally("time.fraction_2_digits")
+	}
+	out := hs + ms + fr
+	if r.chance(1, 12) {
+		out = " " + out + r.pick(" ", "\t", "")
+		ssaTally("time.white_space_around")
+	}
+	return out
+}
+
+// an integer: optional sign, leading zeros (the four-figure margins of the specification)
+func ssaIntAny(r *rng, n int) string {
+	sign, a := "", n
+	if n < 0 {
+		sign, a = "-", -n
+	}
+	switch k := r.intn(6); {
+	case k == 0 && n >= 0:
+		ssaTally("int.plus_sign")
+		return "+" + strconv.Itoa(a)
+	case k == 1:
+		ssaTally("int.leading_zeros")
+		return sign + fmt.Sprintf("%04d", a)
+	case k == 2 && n >= 0:
+		ssaTally("int.plus_sign_and_leading_zeros")
+		return "+" + ssaZeros(1+r.intn(2)) + strconv.Itoa(a)
+	case k == 3 && n == 0:
+		ssaTally("int.minus_zero")
+		return "-0"
+	}
+	if n < 0 {
+		ssaTally("int.negative")
+	} else {
+		ssaTally("int.plain")
+	}
+	return sign + strconv.Itoa(a)
+}
+
+func ssaBoolAny(r *rng, b bool) string {
+	if b {
+		switch r.intn(4) {
+		case 0:
+			ssaTally("bool.true_minus_1")
+			return "-1"
+		case 1:
+			ssaTally("bool.true_1")
+			return "1"
+		}
+		ssaTally("bool.true_other_integer")
+		return r.pick("2", "+1", "01", "-7", "255", "9223372036854775807", "-9223372036854775808")
+	}
+	switch r.intn(6) {
+	case 0:
+		ssaTally("bool.false_zero_respelt")
+		return r.pick("-0", "+0", "00", "0000")
+	case 1:
+		ssaTally("bool.false_not_an_integer")
+		return r.pick("no", "false", "x", "1.0", "9223372036854775808", "1 1") // no spelling that a trim of the row would turn into an integer
+	}
+	ssaTally("bool.false_0")
+	return "0"
+}
+
+func ssaHexCase(r *rng, digits string) (string, string) {
+	b := []byte(strings.ToLower(digits))
+	up, lo := false, false
+	for i, c := range b {
+		if c >= 'a' && c <= 'f' {
+			if r.chance(1, 2) {
+				b[i] = c - 32
+				up = true
+			} else {
+				lo = true
+			}
+		}
+	}
+	switch {
+	case up && lo:
+		return string(b), "mixed_case"
+	case up:
+		return string(b), "upper_case"
+	case lo:
+		return string(b), "lower_case"
+	}
+	return string(b), "no_letter"
+}
+
+// a colour: decimal or &H hexadecimal, every sign / case / width that denotes the 32-bit value n
+func ssaColourAny(r *rng, n uint32) string {
+	dec := strconv.FormatUint(uint64(n), 10)
+	switch k := r.intn(14); {
+	case k == 0:
+		ssaTally("colour.dec_plus_sign")
+		return "+" + dec
+	case k == 1:
+		ssaTally("colour.dec_leading_zeros")
+		return ssaZeros(1+r.intn(3)) + dec
+	case k == 2:
+		ssaTally("colour.dec_negative_same_low_32_bits")
+		return strconv.FormatInt(int64(n)-(1<<32), 10)
+	case k == 3:
+		ssaTally("colour.dec_above_32_bits")
+		return strconv.FormatInt(int64(n)+int64(1+r.intn(1000))<<32, 10)
+	case k == 4 || k == 5:
+		ssaTally("colour.dec")
+		return dec
+	case k == 6:
+		ssaTally("colour.hex_8_digits_upper_case")
+		return fmt.Sprintf("&H%08X", n)
+	case k == 7:
+		ssaTally("colour.hex_8_digits_lower_case")
+		return fmt.Sprintf("&H%08x", n)
+	case k == 8:
+		d, what := ssaHexCase(r, fmt.Sprintf("%08x", n))
+		ssaTally("colour.hex_8_digits_" + what)
+		return "&H" + d
+	case k == 9:
+		d, what := ssaHexCase(r, fmt.Sprintf("%x", n))
+		ssaTally(fmt.Sprintf("colour.hex_short_%d_digits", len(d)))
+		ssaTally("colour.hex_short_" + what)
+		return "&H" + d
+	case (k == 10 || k == 11) && n < 1<<24:
+		d, what := ssaHexCase(r, fmt.Sprintf("%06x", n))
+		ssaTally("colour.hex_6_digits_" + what)
+		return "&H" + d
+	case k == 12:
+		d, _ := ssaHexCase(r, fmt.Sprintf("%x", n))
+		ssaTally("colour.hex_plus_sign")
+		return "&H+" + d
+	case k == 13:
+		d, _ := ssaHexCase(r, fmt.Sprintf("%x%08x", 1+r.intn(255), n))
+		ssaTally("colour.hex_above_32_bits")
+		return "&H" + d
+	}
+	d, _ := ssaHexCase(r, fmt.Sprintf("%08x", n))
+	ssaTally("colour.hex_leading_zeros_beyond_8")
+	return "&H" + ssaZeros(1+r.intn(8)) + d
+}
+
+// k thousandths as a plain decimal inside the float model's domain: [+-]digits[.digits], [+-].digits
+func ssaFloatAny(r *rng, k int64) string {
+	sign := ""
+	if k < 0 {
+		sign, k = "-", -k
+		ssaTally("float.negative")
+	} else if r.chance(1, 8) {
+		sign = "+"
+		ssaTally("float.plus_sign")
+	}
+	ip := strconv.FormatInt(k/1000, 10)
+	fp := strings.TrimRight(fmt.Sprintf("%03d", k%1000), "0")
+	switch r.intn(5) {
+	case 0:
+		if len(fp) < 3 {
+			fp += ssaZeros(3 - len(fp))
+		}
+	case 1:
+		fp += ssaZeros(3 - len(fp) + 1 + r.intn(3))
+	}
+	if r.chance(1, 6) {
+		ip = ssaZeros(1+r.intn(2)) + ip
+		ssaTally("float.leading_zeros")
+	}
+	if ip == "0" && fp != "" && r.chance(1, 3) {
+		ip = ""
+		ssaTally("float.no_integer_digits")
+	}
+	switch {
+	case fp == "" && r.chance(1, 5):
+		ssaTally("float.trailing_dot")
+		return sign + ip + "."
+	case fp == "":
+		ssaTally("float.integer_only")
+		return sign + ip
+	case len(fp) > 3:
+		ssaTally("float.fraction_zeros_beyond_3_digits")
+	default:
+		ssaTally(fmt.Sprintf("float.fraction_%d_digits", len(fp)))
+	}
+	return sign + ip + "." + fp
+}
+
+// the script info timer: the same number with a decimal comma (or a dot: the reader replaces commas only)
+func ssaTimerAny(r *rng, n int64) string {
+	switch r.intn(4) {
+	case 0:
+		ssaTally("timer.writer_form_comma_4_digits")
+		return fmt.Sprintf("%d,%04d", n/1000, n%1000*10)
+	case 1:
+		ssaTally("timer.decimal_dot")
+		return fmt.Sprintf("%d.%04d", n/1000, n%1000*10)
+	case 2:
+		if n%1000 == 0 {
+			ssaTally("timer.integer_only")
+			return strconv.FormatInt(n/1000, 10)
+		}
+	}
+	ssaTally("timer.comma_shortest")
+	fp := strings.TrimRight(fmt.Sprintf("%03d", n%1000), "0")
+	if fp == "" {
+		return strconv.FormatInt(n/1000, 10) + ",0"
+	}
+	return strconv.FormatInt(n/1000, 10) + "," + fp
+}
+
+func ssaRenderValAny(r *rng, v ssaVal) string {
+	switch v.Kind {
+	case 'b':
+		return ssaBoolAny(r, v.B)
+	case 'c':
+		return ssaColourAny(r, uint32(v.C[0])<<24|uint32(v.C[1])<<16|uint32(v.C[2])<<8|uint32(v.C[3]))
+	case 'f':
+		return ssaFloatAny(r, v.F)
+	case 'i':
+		return ssaIntAny(r, v.I)
+	}
+	return v.S
+}
+
 // ---- projection of the library's values ------------------------------------------------------------
 
 func f1000(f *float64) (ssaVal, bool) {
 	if f == nil {
 		return ssaVal{}, false
 	}
-	return ssaVal{Kind: 'f', F: int64(*f*1000 + 0.5)}, true
+	return ssaVal{Kind: 'f', F: int64(math.Round(*f * 1000))}, true
 }
 
 func ssaAttrsOf(sa *astisub.StyleAttributes) map[string]ssaVal {
@@ -908,7 +1264,7 @@ func decodeSsa(doc []byte) (*ssaDocGT, error) {
 						if err != nil {
 							return nil, fmt.Errorf("bad number %q in column %s", v, c)
 						}
-						st.Attrs[c] = ssaVal{Kind: 'f', F: int64(f*1000 + 0.5)}
+						st.Attrs[c] = ssaVal{Kind: 'f', F: int64(math.Round(f * 1000))}
 					case 'i':
 						n, err := strconv.Atoi(v)
 						if err != nil {
@@ -932,13 +1288,16 @@ func decodeSsa(doc []byte) (*ssaDocGT, error) {
 // ---- suite ----------------------------------------------------------------------------------------
 
 func suiteSsa(R *runner, r *rng) {
-	R.rule("ssa: ground-truth documents (script info subsets, comments, 0..3 styles over the 23 attributes, 0..5 dialogue events with all columns, text of 1..5 lines and 1..4 runs with override blocks, commas and colons in text, empty lines incl. the first line(s) of an event, override blocks back to back (runs without text), blanks at run boundaries next to a block) x renderings (column permutations and subsets in both Format lines, section-name case, v4 / v4+ / 'V4 Styles+', H:MM:SS.cc vs HH:MM:SS.cc, decimal vs &H colours, TertiaryColour alias, *Default, \\N and \\n mixed inside one event, EOL kinds, BOM, junk lines, unknown sections, Comment events); reader vs ground truth on the observable columns, and what was read written, read and written again (second write byte-equal to the first); writer output decoded by the independent Format-driven decoder and by the reader; read-then-write byte-equal to the first write; non-trivial = at least one event")
+	R.rule("ssa: ground-truth documents (script info subsets, comments, 0..3 styles over the 23 attributes, 0..5 dialogue events with all columns, text of 1..5 lines and 1..4 runs with override blocks, commas and colons in text, empty lines incl. the first line(s) of an event, override blocks back to back (runs without text), blanks at run boundaries next to a block) x renderings (column permutations and subsets in both Format lines, section-name case, v4 / v4+ / 'V4 Styles+', every cell spelling of the characterisation in coq/Proofs/SsaCells*.v counted as ssa.cell.* (times: hours below 10 / 10..99 / 100 and above, unpadded or padded to 2 or 3 digits, MM:SS and :MM:SS forms, fraction of 0..3 digits, unpadded minutes and seconds, white space around; colours: decimal with sign / leading zeros / negative / above 32 bits, &H with 8 digits in upper, lower and mixed case, short forms incl. 6 digits, plus sign, above 32 bits; booleans: -1, 1, other integers, 0 respelt, non-integers; integers: plus sign, leading zeros, -0, negative; numbers: sign, leading zeros, no integer digits, trailing dot, fraction of 1..3 digits and zeros beyond; timer: comma or dot), TertiaryColour alias, *Default, \\N and \\n mixed inside one event, EOL kinds, BOM, junk lines, unknown sections, Comment events); reader vs ground truth on the observable columns, and what was read written, read and written again (second write byte-equal to the first); writer output decoded by the independent Format-driven decoder and by the reader; read-then-write byte-equal to the first write; non-trivial = at least one event")
 	N := 800
 	if R.tier == "thorough" {
 		N = 16000
 	}
+	ssaCellsOn() // every cell spelling of the characterisation; counted as ssa.cell.*
+	defer ssaCellsFlush(R)
 	for c := 0; c < N; c++ {
 		d := randSsaDoc(r)
+		ssaVary(r, d)
 		doc, sc, ec := renderSsa(r, d)
 		h := map[string]interface{}{"doc": doc}
 		o := &obs{Suite: "ssaread", Group: "ssa.read", NoModel: true, NT: len(d.Events) > 0, Input: "ssa read " + hashBytes([]byte(doc)), Human: h}
@@ -974,6 +1333,7 @@ func suiteSsa(R *runner, r *rng) {
 	}
 	for c := 0; c < N; c++ {
 		d := randSsaDoc(r)
+		ssaVary(r, d)
 		s := subsFromSsaDoc(d)
 		h := map[string]interface{}{"doc": d}
 		o := &obs{Suite: "ssawrite", Group: "ssa.write", NoModel: true, NT: len(d.Events) > 0, Input: fmt.Sprintf("ssa write %d", c), Human: h}
